@@ -313,34 +313,6 @@ func threadIntrinsics(m map[string]Intrinsic) {
 		}
 		return term.False
 	}
-	m["(*github.com/zhangyunhao116/skipmap.Uint64Map).Store"] = func(r *run, fr *frame, args []Value) Value {
-		r.yield("skipmap.Store", nil)
-		mm := (*(args[0].(*Value))).(*Opaque).Data.(*Map)
-		r.mapStore(mm, args[1], args[2])
-		return nil
-	}
-	m["(*github.com/zhangyunhao116/skipmap.Uint64Map).Range"] = func(r *run, fr *frame, args []Value) Value {
-		r.yield("skipmap.Range", nil)
-		mm := (*(args[0].(*Value))).(*Opaque).Data.(*Map)
-		// ascending key order: keys must be concrete here
-		type kv struct {
-			k uint64
-			i int
-		}
-		var ks []kv
-		for i, k := range mm.Keys {
-			t := asTerm(k)
-			ks = append(ks, kv{r.concretize(t, "skipmap key order"), i})
-		}
-		sort.Slice(ks, func(a, b int) bool { return ks[a].k < ks[b].k })
-		for _, e := range ks {
-			res := r.call(args[1], []Value{mm.Keys[e.i], mm.Vals[e.i]})
-			if !r.branch(asTerm(res)) {
-				break
-			}
-		}
-		return nil
-	}
 	m[rtPkg+"Yield"] = func(r *run, fr *frame, args []Value) Value { r.yield("rt.Yield", nil); return nil }
 }
 
